@@ -208,8 +208,7 @@ def histories(tier):
   H += [[a, b] for a in L1 for b in L1]
   if tier == "thorough":
     H += [[a, b] for a in L for b in L if a[0] == "obj" or b[0] == "obj"]
-    L3 = [l for l in L1 if l[2] in ("Nest", "Con", "CL", "Sl")]
-    H += [[a, b, c] for a in L3 for b in L3 for c in L3]
+    H += [[a, b, c] for a in L1 for b in L1 for c in L1]
   return H
 
 
